@@ -27,7 +27,9 @@ static void gen_ple(const GenCtx &ctx, Case &c, int viewpct) {
   g::rankpat(c, "A", m, n);
   // trailing zero rows (first-zero-row truncation)
   if (g::coin(1, 5)) c.set("zero_below", g::rng(0, m));
-  g::place(c, "A", viewpct);
+  // _mzd_ple_russian / _mzd_pluq_russian are only ever handed an owned, aligned copy (_mzd_ple copies its operand first):
+  // windows are outside their domain
+  g::place(c, "A", russian ? 0 : viewpct);
   c.setu("pq.seed", g::seed());
   c.set("pq.kind", g::rng(0, 3));  // 0 identity, 1 values in range, 2 arbitrary small ints, 3 wild
 }
@@ -187,10 +189,10 @@ static RegisterOp r_p2({"_mzd_ple", "C03", 0, nullptr, exec_ple, true});
 static RegisterOp r_p3({"_mzd_pluq", "C03", 0, nullptr, exec_ple, true});
 static RegisterOp r_p4({"_mzd_ple_naive", "C03", 0, nullptr, exec_ple, true});
 static RegisterOp r_p5({"_mzd_pluq_naive", "C03", 0, nullptr, exec_ple, true});
-static RegisterOp r_p6({"_mzd_ple_russian", "C03", 0, nullptr, exec_ple, true});
-static RegisterOp r_p7({"_mzd_pluq_russian", "C03", 0, nullptr, exec_ple, true});
+static RegisterOp r_p6({"_mzd_ple_russian", "C03", 0, nullptr, exec_ple, false});
+static RegisterOp r_p7({"_mzd_pluq_russian", "C03", 0, nullptr, exec_ple, false});
 
-static Case gen_C03(const GenCtx &ctx) { return gen_from_ops("C03", ctx, 0); }
+static Case gen_C03(const GenCtx &ctx) { return gen_from_ops("C03", ctx, 15); }
 static RegisterProp p_C03({"C03",
                            "random: routine (mzd_ple, mzd_pluq, _mzd_ple/_pluq with generated cutoff, naive x2, MMPF base case with "
                            "k in 0..8 x2) x rank-structured A (incl. trailing zero rows, zero matrix, 1 x n, m x 1, shapes with "
